@@ -2577,7 +2577,9 @@ def touching_between_table(db, chk, cfg, rule="T.touching"):
         other = (2, 3) if wi < 2 else (0, 1)
         partner = own[0] if own[1] == wi else own[1]
         for horizontal in (True, False):
-            for perm in itertools.permutations((10, 20, 30)):
+            # the three values all different (6 orderings), and W on an end point of the other segment (the shared-vertex case:
+            # a path vertex exactly on a rectangle corner, reached from off the side's line - the segments meet there)
+            for perm in list(itertools.permutations((10, 20, 30))) + [(10, 10, 30), (30, 10, 30), (10, 30, 10), (30, 30, 10)]:
                 wv, av, bv = perm
                 pts = {}
                 if horizontal:
@@ -2604,7 +2606,7 @@ def touching_between_table(db, chk, cfg, rule="T.touching"):
                     got = it.run_function(f)
                 except Unsupported as e:
                     raise AnalysisBroken("cannot interpret GetSegmentIntersection: %s" % e)
-                want = min(av, bv) < wv < max(av, bv)
+                want = min(av, bv) < wv < max(av, bv) or wv in (av, bv)
                 n += 1
                 ok = bool(got) == want
                 chk.instance(rule, {"W": P[wi], "other_segment": "%s-%s %s" % (P[other[0]], P[other[1]], "horizontal" if horizontal else "vertical"),
@@ -2615,7 +2617,7 @@ def touching_between_table(db, chk, cfg, rule="T.touching"):
         chk.violation(rule, f.qual, "%s|%s|%s" % (b[0], "h" if b[3] else "v", "asc" if b[4][1] < b[4][2] else "desc"),
                       "GetSegmentIntersection with %s on the line of the %s segment %s-%s (%s=%d, %s=%d, %s=%d along it; %s's partner off the line) answers %s; the "
                       "segments %s there (%d of %d cells wrong)" % (b[0], "horizontal" if b[3] else "vertical", b[1], b[2], b[0], b[4][0], b[1], b[4][1], b[2], b[4][2], b[0],
-                                                                    b[5], "touch" if b[6] else "do not touch", len(bad), n), f.where, cfg=cfg)
+                                                                    b[5], ("share that end point" if b[4][0] in b[4][1:] else "touch") if b[6] else "do not touch", len(bad), n), f.where, cfg=cfg)
     return n
 
 
